@@ -53,7 +53,30 @@ func writeByteArgsDepth(info *types.Info, stmts []ast.Stmt, subst map[types.Obje
 			}
 			f := CalleeOf(info, call)
 			if f == nil {
+				// buf = append(buf, a, b…): the bytes appended to a byte slice, in order
+				if id, ok := call.Fun.(*ast.Ident); ok && id.Name == "append" && len(call.Args) >= 2 && !call.Ellipsis.IsValid() {
+					if _, isBuiltin := info.Uses[id].(*types.Builtin); isBuiltin && isByteSlice(info.TypeOf(call.Args[0])) {
+						for _, a := range call.Args[1:] {
+							if o := identObj(info, a); o != nil && subst[o] != nil {
+								a = subst[o]
+							}
+							out = append(out, a)
+						}
+					}
+				}
 				return true
+			}
+			if f.Name() == "Write" && len(call.Args) == 1 {
+				// buf.Write([]byte{a, b})
+				if cl, ok := ast.Unparen(call.Args[0]).(*ast.CompositeLit); ok && isByteSlice(info.TypeOf(cl)) {
+					for _, a := range cl.Elts {
+						if o := identObj(info, a); o != nil && subst[o] != nil {
+							a = subst[o]
+						}
+						out = append(out, a)
+					}
+					return true
+				}
 			}
 			if f.Name() == "WriteByte" && len(call.Args) == 1 {
 				a := call.Args[0]
@@ -153,11 +176,50 @@ func runC25(c *Ctx) {
 				}
 				return types.ExprString(e)
 			}
-			for _, s := range loop.Body.List {
-				sw, ok := s.(*ast.SwitchStmt)
-				if !ok {
-					continue
+			// the per-byte switch: in the loop body, or in a helper of the package that the loop hands the byte to
+			var findSwitch func(list []ast.Stmt, byteObj types.Object, depth int) (*ast.SwitchStmt, string)
+			findSwitch = func(list []ast.Stmt, byteObj types.Object, depth int) (*ast.SwitchStmt, string) {
+				for _, s := range list {
+					if sw, ok := s.(*ast.SwitchStmt); ok && sw.Tag != nil && identObj(info, sw.Tag) == byteObj {
+						return sw, byteObj.Name()
+					}
 				}
+				if depth >= 2 {
+					return nil, ""
+				}
+				for _, s := range list {
+					var found *ast.SwitchStmt
+					var nm string
+					ast.Inspect(s, func(n ast.Node) bool {
+						call, ok := n.(*ast.CallExpr)
+						if !ok || found != nil {
+							return found == nil
+						}
+						hd := c25Decls[CalleeOf(info, call)]
+						if hd == nil {
+							return true
+						}
+						i := 0
+						for _, fl := range hd.Type.Params.List {
+							for _, pn := range fl.Names {
+								if i < len(call.Args) && identObj(info, call.Args[i]) == byteObj {
+									if sw, n2 := findSwitch(hd.Body.List, info.ObjectOf(pn), depth+1); sw != nil {
+										found, nm = sw, n2
+									}
+								}
+								i++
+							}
+						}
+						return found == nil
+					})
+					if found != nil {
+						return found, nm
+					}
+				}
+				return nil, ""
+			}
+			if sw, nm := findSwitch(loop.Body.List, identObj(info, loop.Value), 0); sw != nil {
+				bvar = nm
 				for _, arm := range SwitchArms(info, sw) {
 					var seq []string
 					for _, a := range writeByteArgs(info, arm.Body) {
@@ -180,8 +242,13 @@ func runC25(c *Ctx) {
 			// the whole buffer is written
 			wrote := false
 			for _, call := range callsIn(info, after) {
-				if strings.HasSuffix(types.ExprString(call.Fun), ".w.Write") && len(call.Args) == 1 && strings.HasSuffix(types.ExprString(call.Args[0]), ".Bytes()") {
-					wrote = true
+				if strings.HasSuffix(types.ExprString(call.Fun), ".w.Write") && len(call.Args) == 1 {
+					// the buffer's bytes, or the byte slice the packet was appended to
+					if strings.HasSuffix(types.ExprString(call.Args[0]), ".Bytes()") {
+						wrote = true
+					} else if id, ok := ast.Unparen(call.Args[0]).(*ast.Ident); ok && appendAccumulators(info, fd.Body)[info.ObjectOf(id)] {
+						wrote = true
+					}
 				}
 			}
 			c.Check(wrote, rD, "WritePacket: buffer written to the transport", p.Pos(fd.Pos()), "w.Write(buf.Bytes())", "the stuffed buffer is not written to the transport in one Write")
@@ -251,7 +318,8 @@ func runC25(c *Ctx) {
 				}
 			}
 		}
-		c.Check(nReads >= 2 && nTested == nReads, rR, "ReadPacket: every Read is checked", p.Pos(fd.Pos()), fmt.Sprintf("%d reads, all followed by `n == 0 || err != nil` -> return", nReads), fmt.Sprintf("%d of %d Read calls are followed by a test of n and err that returns: a short or failed read is treated as data", nTested, nReads))
+		_, _ = nReads, nTested // superseded by the semantic form of the rule (c25_reads.go)
+		c25ReadsChecked(c, p, pk, fd, bufVar)
 		// decode tables: a switch on the byte, or the same as an if / else-if chain
 		record := func(code string, body []ast.Stmt) {
 			for _, s := range body {
@@ -311,6 +379,61 @@ func runC25(c *Ctx) {
 						}
 					}
 				}
+			}
+			return true
+		})
+		// the same table in a helper of the package: `buf[0] = unescape(buf[0])` with
+		// `switch c { case ESC_END: return END; case ESC_ESC: return ESC }; return c`
+		ast.Inspect(fd.Body, func(n ast.Node) bool {
+			as, ok := n.(*ast.AssignStmt)
+			if !ok || len(as.Lhs) != 1 || len(as.Rhs) != 1 || types.ExprString(as.Lhs[0]) != bufVar+"[0]" {
+				return true
+			}
+			call, ok := as.Rhs[0].(*ast.CallExpr)
+			if !ok || len(call.Args) != 1 || types.ExprString(call.Args[0]) != bufVar+"[0]" {
+				return true
+			}
+			hd := c25Decls[CalleeOf(info, call)]
+			if hd == nil || len(hd.Type.Params.List) != 1 || len(hd.Type.Params.List[0].Names) != 1 {
+				return true
+			}
+			param := info.ObjectOf(hd.Type.Params.List[0].Names[0])
+			identity := false // every path that is not a rewritten code returns the byte itself
+			if last, ok := hd.Body.List[len(hd.Body.List)-1].(*ast.ReturnStmt); ok && len(last.Results) == 1 && identObj(info, last.Results[0]) == param {
+				identity = true
+			}
+			for _, s := range hd.Body.List {
+				sw, ok := s.(*ast.SwitchStmt)
+				if !ok || sw.Tag == nil || identObj(info, sw.Tag) != param {
+					continue
+				}
+				for _, arm := range SwitchArms(info, sw) {
+					if arm.Default {
+						if len(arm.Body) == 1 {
+							if r, ok := arm.Body[0].(*ast.ReturnStmt); ok && len(r.Results) == 1 && identObj(info, r.Results[0]) == param {
+								identity = true
+							}
+						}
+						continue
+					}
+					for _, k := range arm.Consts {
+						if len(arm.Body) != 1 {
+							continue
+						}
+						if r, ok := arm.Body[0].(*ast.ReturnStmt); ok && len(r.Results) == 1 {
+							if v, ok := constIntOf(info, r.Results[0]); ok {
+								for nme, x := range vals {
+									if x == v {
+										rmap[k.Name] = nme
+									}
+								}
+							}
+						}
+					}
+				}
+			}
+			if !identity {
+				rmap["(other bytes)"] = "not returned unchanged by " + declName(hd)
 			}
 			return true
 		})
